@@ -50,13 +50,13 @@ Print Assumptions C20_eviction_tables_are_translated.
    of them re-opens this property even if no sampled case shows a difference.  Rewritten by tools/pin_shapes.py on a tree on which every check passes. *)
 From Connectome Require VmGen GlueGraphGen.
 Theorem C20_mirrored_functions_are_the_pinned_ones :
-  VmGen.shape_execute = "3390af1da9648cc9" /\
-  GlueGraphGen.shape_class_Graph = "9b10ec592949c6f4" /\
-  GlueGraphGen.shape_evaluate = "2cfd3509723284f1" /\
-  GlueGraphGen.shape_compute_hash = "e8fe66bcf0ec3ecc" /\
-  GlueGraphGen.shape_class_GraphCompiler = "b1003ba6d768dee1" /\
-  GlueGraphGen.shape_find_dependencies = "98effd5d1564b846" /\
-  GlueGraphGen.shape_class_TreeNode = "f3a44e95e44d05b5".
+  VmGen.shape_execute = "3390af1da9648cc9"%string /\
+  GlueGraphGen.shape_class_Graph = "9b10ec592949c6f4"%string /\
+  GlueGraphGen.shape_evaluate = "2cfd3509723284f1"%string /\
+  GlueGraphGen.shape_compute_hash = "e8fe66bcf0ec3ecc"%string /\
+  GlueGraphGen.shape_class_GraphCompiler = "b1003ba6d768dee1"%string /\
+  GlueGraphGen.shape_find_dependencies = "98effd5d1564b846"%string /\
+  GlueGraphGen.shape_class_TreeNode = "f3a44e95e44d05b5"%string.
 Proof. repeat split; reflexivity. Qed.
 Print Assumptions C20_mirrored_functions_are_the_pinned_ones.
 (* END PINNED FINGERPRINTS *)
